@@ -38,10 +38,11 @@
 #if KERNEL == K_GF28_ADDMUL1 && defined(ROWTAB)
 /* ROWTAB (abstraction of the multiplication table, used as a fast filter): the kernel is compiled
  * here with the identifier of the 256x256 table bound to an array of 256 row POINTERS that are all
- * NULL except the one of the (symbolic) constant c, which points to a 256-byte row filled with
- * c*j computed by shift-xor arithmetic.  A run that passes has therefore read the table only in row
- * c, columns 0..255, and has read there the values C14 proves the real table to hold; everything
- * else is the real code.  It avoids the 64K-entry case split per byte of the exact query.  A
+ * NULL except the one of the (symbolic) constant c, which points to a 256-byte row of free solver
+ * variables; the specification is dst[i] ^= row[src[i]].  A run that passes has therefore read the
+ * table only in row c, columns 0..255 (anything else dereferences NULL or leaves the row), and is
+ * exact for EVERY row content, the real one (C14) included; everything else is the real code.  It
+ * avoids proving a pointer-based and an index-based lookup of a 64K table equal, byte by byte.  A
  * FAILURE of such a query is never reported: the driver then runs the exact query (real table)
  * for the same size and reports only what that one finds. */
 static gf *verif_rowptr[256];
@@ -56,17 +57,6 @@ static gf *verif_rowptr[256];
 #endif
 #ifdef VERIF_ROWTAB
 static gf verif_row[256];
-static gf ref_mul8(unsigned a, unsigned b)
-{
-	unsigned r = 0, i;
-	for (i = 0; i < 8; i++) {
-		if (b & 1) r ^= a;
-		b >>= 1;
-		a <<= 1;
-		if (a & 0x100) a ^= 0x11D;
-	}
-	return (gf)r;
-}
 #endif
 
 #define NB (KCOUNT > 0 ? KCOUNT : 1)
@@ -155,7 +145,7 @@ int main(void)
 	ASSUME(c < 16);
 #endif
 #ifdef VERIF_ROWTAB
-	for (i = 0; i < 256; i++) verif_row[i] = ref_mul8(c, i);
+	for (i = 0; i < 256; i++) verif_row[i] = in_u8();      /* every row content (the real one included) */
 	VERIF_ROWTAB[c] = verif_row;
 #endif
 #if KERNEL == K_RS28_ADDMUL1
@@ -171,7 +161,7 @@ int main(void)
 	for (i = 0; i < KSIZE; i++) {
 		unsigned char x = c_src[0][i], prod;
 #ifdef VERIF_ROWTAB
-		prod = verif_row[x];          /* = c*x by construction of the row (shift-xor) */
+		prod = verif_row[x];
 #elif KERNEL == K_RS28_ADDMUL1
 		prod = of_gf_mul_table[c][x];
 #elif KERNEL == K_GF28_ADDMUL1
